@@ -568,6 +568,11 @@ pub fn gen_cfg_kind(rng: &mut Rng, p: &GenProfile, kind: Kind) -> Cfg {
     if kind.is_async() {
         c.ratio = gen_ratio(rng, p.ratio_span, c.chunk);
         c.max_rel = gen_max_rel(rng, p.max_max_rel);
+        if rng.chance(0.04) {
+            // near-integer read positions: power-of-two ratio that can only be nudged by a few ulps
+            c.ratio = (2.0f64).powi(rng.ui(0, 8) as i32 - 4).clamp(1.0 / p.ratio_span, p.ratio_span);
+            c.max_rel = 1.0 + f64::EPSILON * *rng.pick(&[1.0, 2.0, 3.0, 4.0, 8.0, 1e3, 1e6]);
+        }
         // keep buffers affordable: chunk*ratio*max_rel and chunk/ratio*max_rel bounded
         let cap = 1.5e5;
         while (c.chunk as f64) * c.ratio.max(1.0 / c.ratio) * c.max_rel > cap && c.chunk > 1 {
